@@ -296,7 +296,9 @@ static void do_giveback_check(const Op& op) {
   for (auto& r : os_regions()) {
     if (r.donated || in_arena(as, r.start, r.len)) continue;
     if (os_region_unmap_refused(r.start)) continue;
-    if (r.len >= (1u << 20))
+    // (mappings of at most 8 KiB are segment-map parts and arena descriptors, which stay by design; everything larger is a segment, a huge
+    // block or the metadata of a thread, and all threads but this one are gone)
+    if (r.len > 8192)
       sim_violation("os_region_leaked", "after everything was freed and mi_collect(true): mapping #%u [0x%llx,+0x%llx) created by thread %d op %d (mmap call #%llu) is still mapped and is not part of any arena", r.id, (unsigned long long)r.start, (unsigned long long)r.len, r.vt, r.op, (unsigned long long)r.call_no);
   }
   // (2) arena memory is no longer committed (unless purging is disabled / reset mode)
